@@ -227,7 +227,7 @@ def mk_pipeline_quiet(name, twin=None, params=None, debug_logging=False):
                               detail='%s %s: %r vs %r' % (a.label, kind, da, db))
             for g in gn:
                 for h in g.non_covalently_coupled_groups:
-                    ctx.claim('coupling-symmetric', g in h.non_covalently_coupled_groups)
+                    ctx.claim('coupling-symmetric', any(x is g for x in h.non_covalently_coupled_groups), detail='%s lists %s but not the other way round' % (g.label, h.label))
     return body
 
 
@@ -266,12 +266,13 @@ def obligations(tier):
                               bounds='micro-structure %s%s, Nmin/Nmax lowered to 6/30 (pairs reach the swap), under a symbolic grid shift; coupling search switched off vs on' % (name, ' with an insertion-coded twin residue' if twin else ''),
                               claim_doc='every pKa and determinant identical with and without the coupling search; coupling symmetric', max_paths=5000, wall_s=170 if tier == 'quick' else 1200))
     from . import micro as M
-    for name, dbg in ([('pep8', True), ('pair_ASP_ARG', False)] if tier == 'quick' else [('pep8', False), ('pep8', True), ('pair_ASP_ARG', False), ('pair_ASP_ARG', True), ('pair_ASP_ASP', True), ('pair_LYS_ASP', True), ('pair_GLU_ARG_TYR', False)]):
+    for name, dbg in ([('pep8', True), ('pair_ASP_ARG', False), ('complex_MTX2', False)] if tier == 'quick' else [('pep8', False), ('pep8', True), ('pair_ASP_ARG', False), ('pair_ASP_ARG', True), ('pair_ASP_ASP', True), ('pair_LYS_ASP', True), ('pair_GLU_ARG_TYR', False), ('complex_MTX2', False), ('complex_MTX2', True)]):
         obs.append(Obligation('O4-pipeline-undisturbed[%s,coupled%s]' % (name, ',DEBUG logging' if dbg else ''), mk_pipeline_quiet(name, None, M.COUPLED, dbg),
                               code=[CGm + 'identify_non_covalently_coupled_groups', CGm + 'print_out_swaps', CGm + 'print_system'] + code + ['propka/conformation_container.py:ConformationContainer.find_non_covalently_coupled_groups',
                                                                                                                                        'propka/run.py:single (whole pipeline)'],
                               bounds='micro-structure %s, burial on and coupling thresholds relaxed (coupled pairs present)%s, under a symbolic grid shift; coupling search switched off vs on; no -d' % (name, ', propka logger at DEBUG' if dbg else ''),
-                              claim_doc='every pKa and determinant identical with and without the coupling search (display of alternative states not requested); coupling symmetric', max_paths=5000, wall_s=170 if tier == 'quick' else 1200))
+                              claim_doc='every pKa and determinant identical with and without the coupling search (display of alternative states not requested); coupling symmetric (partners told apart by identity)', max_paths=5000, wall_s=170 if tier == 'quick' else 1200,
+                              split_input=('shift_thousandths', 8) if name.startswith('complex') else None))
     if tier == 'thorough':
         for (q1, q2, pi) in ((-1, 1, 1), (-1, -1, 0), (1, 1, 2)):
           obs.append(Obligation('O1b-probe-with-real-folding-energy[q=%+d%+d,pattern%d]' % (q1, q2, pi), mk_swap(True, q1, q2, pi),
